@@ -87,7 +87,7 @@ def delegated_extents(ck, wd):
     def one(sub):
         sev = os.path.join(wd, 'sub_' + sub)
         os.makedirs(sev, exist_ok=True)
-        env = dict(VERIF_RUNTAG='_in_C18', VERIF_EVID=sev, VERIF_NOMODEL='1')
+        env = dict(VERIF_RUNTAG=vlib.RUNTAG + '_in_C18', VERIF_EVID=sev, VERIF_NOMODEL='1')
         r = sh([os.path.join(vlib.VERIF, 'check'), sub, '--tier', 'quick'], env=env, timeout=2400)
         return sub, sev, r
     with ThreadPoolExecutor(max_workers=2) as ex:
@@ -126,7 +126,7 @@ def run(tier, seed, replay=None):
         sub = j['delegate']
         rp = os.path.join(wd, 'sub_replay.json')
         json.dump(j['sub_replay'], open(rp, 'w'))
-        r = sh([os.path.join(vlib.VERIF, 'check'), sub, '--tier', 'quick', '--replay', rp], env=dict(VERIF_RUNTAG='_in_C18', VERIF_EVID=os.path.join(wd, 'sub_' + sub)), timeout=2400)
+        r = sh([os.path.join(vlib.VERIF, 'check'), sub, '--tier', 'quick', '--replay', rp], env=dict(VERIF_RUNTAG=vlib.RUNTAG + '_in_C18', VERIF_EVID=os.path.join(wd, 'sub_' + sub)), timeout=2400)
         if r.returncode == 1:
             ck.violation('extents of the %s overload families: %s' % (sub, j['sub_replay'].get('key', '')[:200]), j['sub_replay'].get('desc', '')[:600], j)
         return ck.finish()
